@@ -33,6 +33,12 @@ pub struct ModSpec {
     pub msgs: Vec<(u8, u8)>,
     /// the handler forwards every message it sees to the sink (id + 3000)
     pub handler_sends: bool,
+    /// at_sim_end returns an error
+    #[serde(default)]
+    pub end_err: bool,
+    /// a joined task is still pending at the end (run() reports NotFinished)
+    #[serde(default)]
+    pub pending_join: bool,
 }
 
 #[derive(Clone, Debug, Serialize, Deserialize)]
@@ -90,6 +96,8 @@ impl ProcessingElement for PE {
 }
 
 struct M {
+    end_err: bool,
+    pending_join: bool,
     own: Vec<Elem>,
     base: usize,
     stages: usize,
@@ -113,6 +121,9 @@ impl Module for M {
     }
     fn at_sim_start(&mut self, stage: usize) {
         net::log("h-start", stage as i64, 0);
+        if stage == 0 && self.pending_join {
+            current().join(tokio::spawn(std::future::pending::<()>()));
+        }
         if stage == 0 && !self.wakes.is_empty() {
             let wakes = self.wakes.clone();
             tokio::spawn(async move {
@@ -133,6 +144,9 @@ impl Module for M {
     }
     fn at_sim_end(&mut self) -> Result<(), RuntimeError> {
         net::log("h-end", 0, 0);
+        if self.end_err {
+            return Err(RuntimeError::from(std::io::Error::other("injected tear-down error")));
+        }
         Ok(())
     }
 }
@@ -183,6 +197,8 @@ pub fn run_case(case: &Case) -> Result<(bool, Vec<&'static str>), Failure> {
         sim.node(
             names[i].as_str(),
             M {
+                end_err: m.end_err,
+                pending_join: m.pending_join && (m.stages % 3) >= 1,
                 own: m.own.clone(),
                 base: g,
                 stages: (m.stages % 3) as usize,
@@ -214,7 +230,14 @@ pub fn run_case(case: &Case) -> Result<(bool, Vec<&'static str>), Failure> {
     let log = net::log_take();
     let ok = res.is_ok();
     drop(res);
-    vensure!(ok, "run-returned-error", "run() returned an error");
+    let expect_err = mods.iter().any(|m| m.end_err || (m.pending_join && (m.stages % 3) >= 1));
+    vensure!(
+        ok != expect_err,
+        "run-result",
+        "run() returned {} although {} tear-down error was injected",
+        if ok { "Ok" } else { "Err" },
+        if expect_err { "a" } else { "no" }
+    );
 
     // expected log of the target modules, and the expected sink sequence
     timeline.sort();
@@ -364,6 +387,9 @@ pub fn run_case(case: &Case) -> Result<(bool, Vec<&'static str>), Failure> {
     if !want_sink.is_empty() {
         labels.push("sends-inside-event");
     }
+    if expect_err {
+        labels.push("tear-down-ends-with-error");
+    }
     Ok((n_max >= 2 && consumed_early && wake_events > 0, labels))
 }
 
@@ -374,7 +400,8 @@ impl Prop for C14 {
     fn rule() -> String {
         "proptest: a global stack of 0..4 elements and 0..2 per-module elements (Module::stack) for 1..2 target modules, element kinds pass / rewrite \
          id / consume-if(id % m == r) / also-send / send-on-event-end; events: start-up stages (0..2 per module), injected messages at distinct \
-         instants, timer wake-ups of a task, tear-down; handlers optionally forward to a sink. Oracle: the complete hook/handler log of the target \
+         instants, timer wake-ups of a task, tear-down (also ending in an error: at_sim_end returns Err, or a joined task is still pending); \
+         handlers optionally forward to a sink. Oracle: the complete hook/handler log of the target \
          modules must equal the log produced by an independent interpretation of the stack rules (event_start 0..n-1 each once, incoming in that \
          order until consumed, handler iff not consumed and with the rewritten id, event_end n-1..0 each once, module elements after the global \
          ones, brackets contiguous); the sink receives the messages sent inside events in program order. Non-trivial iff a stack has >= 2 elements \
@@ -408,13 +435,17 @@ impl Prop for C14 {
             proptest::collection::vec(0u8..20, 0..4),
             proptest::collection::vec((0u8..20, 0u8..12), 0..6),
             any::<bool>(),
+            proptest::bool::weighted(0.2),
+            proptest::bool::weighted(0.2),
         )
-            .prop_map(|(own, stages, wakes, msgs, handler_sends)| ModSpec {
+            .prop_map(|(own, stages, wakes, msgs, handler_sends, end_err, pending_join)| ModSpec {
                 own,
                 stages,
                 wakes,
                 msgs,
                 handler_sends,
+                end_err,
+                pending_join,
             });
         (proptest::collection::vec(elem, 0..5), proptest::collection::vec(m, 1..3))
             .prop_map(|(global, mods)| Case { global, mods })
